@@ -35,6 +35,7 @@ pub open spec fn covered(f: Seq<Seq<char>>, w: Seq<(usize, usize)>, k: int) -> b
 }
 
 //@unit src/text.rs fn word_boundaries rules=R15_enum
+#[verifier::loop_isolation(false)]
 pub fn word_boundaries(s: &str, use_graphemes: bool) -> (res: Vec<(usize, usize)>)
     ensures
         words_ok(chars_of(s, use_graphemes), res@, chars_of(s, use_graphemes).len() as int),
